@@ -293,6 +293,8 @@ class SpecMixin:
         if name == 'fresharr':   # fresharr(x): backing array of x was allocated in this call
             x = self.sev(env, args[0])
             fr = env.st.meta.get('fresh_arrs', set())
+            if env.st.meta.get('concrete'):
+                raise Unsupported('fresharr is not observable on a concrete run')
             return z3.BoolVal(x.arr.get_id() in fr)
         if name == 'samearr':
             x, y = self.sev(env, args[0]), self.sev(env, args[1])
